@@ -153,6 +153,24 @@ func c13PVSS(t *rapid.T, ev *evProp) {
 			rD = append(rD, bad)
 		}
 	}
+	// a trustee's message may arrive more than once: further copies of (key, enc, dec) triples at
+	// generated positions of the lists, not necessarily next to the first copy; a copy adds nothing
+	// to the number of distinct valid shares
+	for k := rapid.IntRange(0, 3).Draw(t, "repeats"); k > 1; k-- {
+		src := uniformInt(t, 0, len(rX)-1, "repeatOf")
+		pos := uniformInt(t, 0, len(rX), "repeatAt")
+		x0, e0, d0 := rX[src], rE[src], rD[src]
+		rX = append(rX[:pos], append([]kyber.Point{x0}, rX[pos:]...)...)
+		rE = append(rE[:pos], append([]*pvss.PubVerShare{e0}, rE[pos:]...)...)
+		rD = append(rD[:pos], append([]*pvss.PubVerShare{d0}, rD[pos:]...)...)
+		order = append(order[:pos], append([]int{order[src]}, order[pos:]...)...)
+	}
+	before := 0
+	for k := range rX {
+		if pvss.VerifyDecShare(suite, G, rX[k], rE[k], rD[k]) == nil {
+			before++
+		}
+	}
 	rec, err := pvss.RecoverSecret(suite, G, rX, rE, rD, uint32(th), uint32(n))
 	// The caller's slices must still hold the same m verifiable (key, encrypted share, decrypted share)
 	// triples afterwards: a verification pass that filters one slice in place misaligns them, and the
@@ -163,8 +181,8 @@ func c13PVSS(t *rapid.T, ev *evProp) {
 			still++
 		}
 	}
-	if still != m {
-		violationOrKnown(t, ev, key("RecoverSecret-input-misaligned"), "after RecoverSecret only %d of the caller's %d valid (key, enc, dec) triples still verify (order %v, valid %v)\n%s", still, m, order, valid, ctx)
+	if still != before {
+		violationOrKnown(t, ev, key("RecoverSecret-input-misaligned"), "after RecoverSecret only %d of the caller's %d valid (key, enc, dec) triples still verify (order %v, valid %v)\n%s", still, before, order, valid, ctx)
 	}
 	if rec2, err2 := pvss.RecoverSecret(suite, G, rX, rE, rD, uint32(th), uint32(n)); (err == nil) != (err2 == nil) || (err == nil && !rec.Equal(rec2)) {
 		violationOrKnown(t, ev, key("RecoverSecret-repeat"), "a second RecoverSecret on the same arguments gives err=%v, the first gave err=%v (%d valid shares, t=%d, order %v, valid %v)\n%s", err2, err, m, th, order, valid, ctx)
